@@ -319,6 +319,30 @@ def _interval_operators(ctx: Ctx) -> Set[str]:
     return out
 
 
+def _ident_operators(ctx: Ctx) -> Set[str]:
+    """Operators whose port set IS their operand list (C08 forward shape IDENT): eq."""
+    from .c08 import forward_shape, op_paths
+    from .normalise import normalised
+
+    fwd = normalised(ctx, ctx.func("Port._items_to_ports"), "dispatch,unroll,beta")
+    operators = list(ctx.folder.const("helpers", "OPERATORS"))
+    out: Set[str] = set()
+    for op, ps in op_paths(ctx, fwd, operators).items():
+        normal = [p for p in ps if not p.raises]
+        if op in operators and normal and forward_shape(ctx, fwd, normal[0], fwd.params[1])["kind"] == "IDENT":
+            out.add(op)
+    return out
+
+
+def _compares_operands(x: ast.AST, y: ast.AST) -> bool:
+    """Either side of the inclusion reads the operand list (`.items`) and not the port list."""
+    def leafs(e: ast.AST) -> Set[str]:
+        return {c[-1].lstrip("_").rstrip("()") for c in chains_in(e)}
+
+    lx, ly = leafs(x), leafs(y)
+    return ("items" in lx and "ports" not in lx) or ("items" in ly and "ports" not in ly)
+
+
 def _bounds_cover(e: Optional[ast.AST], other: str, field: str, h: Func) -> Optional[bool]:
     """None: not a bounds comparison.  True: `top.low <= bottom.low and bottom.high <= top.high` (top from other, bottom
     from self, ports of `field`).  False: a bounds comparison that is not this one."""
@@ -460,6 +484,9 @@ def port_cover_rules(ctx: Ctx, rep: Report, h: Func, field: str, rid4: str = "R0
                 rep.violation(h.qualname, snippet(c), "the cover test is an equality, not an inclusion of the bottom set in the top set", where(h))
             elif kind == "proper":
                 rep.violation(h.qualname, snippet(c), "the cover test demands a proper subset: an identical entry is not reported", where(h))
+            elif x_self and not x_other and y_other and not y_self and _compares_operands(rx_, ry) and not ((_operators_on_path(ctx, p, other, field, h) or {"?"}) <= _ident_operators(ctx)):
+                ops_ = _operators_on_path(ctx, p, other, field, h)
+                rep.violation(h.qualname, snippet(c), f"the inclusion is between the OPERANDS (.items), not the port sets, on a path where the top operator may be {sorted(ops_) if ops_ is not None else 'anything'}: only for an operator whose port set is its operands (eq) is that the same test - for neq it is the reverse", where(h), inp="top 'permit tcp any any neq 80', bottom 'permit tcp any any neq 80 443'")
             elif x_self and not x_other and y_other and not y_self:
                 rep.ok(f"{h.qualname}: {snippet(c, 60)}", f"normalises to bottom(self) ⊆ top({other})", where=where(h))
             else:
